@@ -124,6 +124,12 @@ def instantiate_axioms(terms, rounds=2):
                 continue
             done.add(key)
             if _mentions_bound_var(t):
+                if name == "py_isspace" and "isspace!q" not in done:
+                    # applications under binders (whitespace runs): the single-character fact as a quantified axiom
+                    done.add("isspace!q")
+                    c = z3.Const("c!ws", StrS)
+                    app = U["isspace"](c)
+                    new.append(z3.ForAll([c], z3.Implies(z3.Length(c) == 1, app == z3.Or([c == z3.StringVal(w) for w in WS_CHARS])), patterns=[app]))
                 continue      # only closed applications are instantiated
             new += _facts_for(name, t)
         if not new:
@@ -143,6 +149,9 @@ def _facts_for(name, t):
         else:
             out.append(U["lower"](t) == t)
             out.append(z3.Implies(z3.Length(a) == 0, t == z3.StringVal("")))
+            # lower() maps cased letters to letters and leaves every other character alone: '@' in front stays / appears
+            # only if it was there
+            out.append(z3.PrefixOf(z3.StringVal("@"), t) == z3.PrefixOf(z3.StringVal("@"), a))
             if _CTX.get("digits"):
                 out.append(z3.Implies(z3.InRe(a, DIGITS), t == a))      # ASCII digit strings have no cased characters
     elif name == "py_strip":
@@ -164,9 +173,30 @@ def _facts_for(name, t):
             out.append(t == z3.StringVal(lit.rstrip()))
         else:
             out.append(z3.PrefixOf(t, a))
+            nws = lambda c: z3.And([c != z3.StringVal(w) for w in WS_CHARS])
+            # only trailing whitespace goes: a first character that is not whitespace stays, the result ends in none
+            out.append(z3.Implies(z3.And(z3.Length(a) > 0, nws(z3.SubString(a, 0, 1))), z3.Length(t) > 0))
+            out.append(z3.Implies(z3.And(z3.Length(a) > 0, z3.Not(U["isspace"](z3.SubString(a, 0, 1)))), z3.Length(t) > 0))
+            if z3.is_app(a) and a.decl().kind() == z3.Z3_OP_SEQ_EXTRACT:
+                # rstrip of a slice: the first character of the slice is the character at the slice start
+                base, off, ln = a.arg(0), a.arg(1), a.arg(2)
+                out.append(z3.Implies(z3.And(off >= 0, ln > 0, off < z3.Length(base)), z3.SubString(a, 0, 1) == z3.SubString(base, off, 1)))
+                out.append(z3.Implies(z3.And(off >= 0, ln > 0, off + ln <= z3.Length(base)),
+                                      z3.SubString(a, z3.Length(a) - 1, 1) == z3.SubString(base, off + ln - 1, 1)))
+            out.append(z3.Implies(z3.And(z3.Length(a) == 1, U["isspace"](a)), t == z3.StringVal("")))
+            out.append(z3.Implies(z3.Length(a) == 0, t == z3.StringVal("")))
+            # trailing whitespace goes: a string that ends in whitespace gets shorter
+            out.append(z3.Implies(z3.And(z3.Length(a) > 0, U["isspace"](z3.SubString(a, z3.Length(a) - 1, 1))), z3.Length(t) < z3.Length(a)))
+            out.append(z3.Implies(z3.Length(t) > 0, nws(z3.SubString(t, z3.Length(t) - 1, 1))))
+            out.append(z3.Implies(z3.And(z3.Length(a) > 0, nws(z3.SubString(a, z3.Length(a) - 1, 1))), t == a))
     elif name == "py_isspace":
         if lit is not None:
             out.append(t == z3.BoolVal(lit.isspace()))
+        else:
+            # a single character is whitespace iff it is one of the characters str.strip() removes (WS_CHARS is
+            # computed from the running CPython: exactly the code points with str.isspace())
+            out.append(z3.Implies(z3.Length(a) == 1, t == z3.Or([a == z3.StringVal(w) for w in WS_CHARS])))
+            out.append(z3.Implies(z3.Length(a) == 0, z3.Not(t)))
     elif name == "py_isalpha":
         if lit is not None:
             out.append(t == z3.BoolVal(lit.isalpha()))
@@ -699,6 +729,15 @@ def clamp_slice(lo, hi, n):
 
 def slice_value(eng, o, lo, hi, step, st, fr, k):
     from .symex import EngineError
+    def dyn_bound(v):
+        # a dynamic slice bound must be an int here (None bounds are written literally in the code under contract)
+        if isinstance(v, SDyn):
+            if not st.spec:
+                eng.oblige(st, "type", "slice-bound-int", PyVal.is_IntV(v.t), "a dynamic value is used as a slice bound")
+                st.assume(PyVal.is_IntV(v.t))
+            return SInt(PyVal.ival(v.t))
+        return v
+    lo, hi = dyn_bound(lo), dyn_bound(hi)
     lo_t = as_int(lo) if lo is not None and not isinstance(lo, SNone) else None
     hi_t = as_int(hi) if hi is not None and not isinstance(hi, SNone) else None
     if step is not None and not isinstance(step, SNone):
@@ -1111,7 +1150,12 @@ def _quant(kind):
 
 
 def _implies(eng, e, st, fr, k):
-    return eng.ev(e.args[0], st, fr, lambda s, a: eng.ev(e.args[1], s, fr, lambda s2, b: k(s2, SBool(z3.Implies(eng.truth(s2, a), eng.truth(s2, b))))))
+    def got_a(s, a):
+        ta = z3.simplify(eng.truth(s, a))
+        if z3.is_false(ta):
+            return k(s, SBool(True))       # statically false antecedent: the consequent need not be well-formed
+        return eng.ev(e.args[1], s, fr, lambda s2, b: k(s2, SBool(z3.Implies(ta, eng.truth(s2, b)))))
+    return eng.ev(e.args[0], st, fr, got_a)
 
 
 def _old(eng, e, st, fr, k):
@@ -1155,6 +1199,8 @@ def _fresh(eng, e, st, fr, k):
         base = s.old[2] if s.old is not None else s.alloc0
         if isinstance(v, SDyn):
             return k(s, SBool(z3.And(PyVal.is_RefV(v.t), PyVal.rval(v.t) >= base)))
+        if isinstance(v, SNone):
+            return k(s, SBool(False))
         return k(s, SBool(v.t >= base))
     return eng.ev(e.args[0], st, fr, got)
 
